@@ -656,6 +656,44 @@ def d_old_long_vs_new_short(h, var):
     h.run(var["alone"], var["alone_dt"])            # every link is dead: nothing is delivered, everybody ticks
 
 
+def d_long_walkback(h, var):
+    """a former leader comes back with an uncommitted tail of an OLDER term while the only other reachable voter(s)
+    hold a LONGER log of a newer term; the remaining voters are down for good, so the returning node is NEEDED for the
+    majority.  The new leader starts at its own log end and steps back one index per round trip over the whole
+    stale tail: for longer than leaderFallbackTimeout it hears nothing but rejections from the node it depends on."""
+    h.connect_all()
+    L = h.elect()
+    if L is None:
+        return
+    h.submit(L, "tiny", 2)
+    h.run(4)
+    rest = [x for x in h.A if x != L]
+    restV = [v for v in rest if v in h.V]
+    h.notes["lagging"] = L
+    h.isolate([L], var["mode"])
+    h.submit(L, "tiny", var["tail"])                 # accepted at once (before the fallback), never replicated
+    h.run(1, DT, [L])
+    N = None
+    for _ in range(200):
+        h.run(1, DT, rest)
+        h.run(1, DT, [L])
+        N = h.leader(restV)
+        if N is not None:
+            break
+    if N is None:
+        return
+    h.run(2, DT, rest)
+    h.submit(N, "tiny", var["tail"] + var.get("more", 3))     # the new log is longer: the walk starts at the top
+    h.run(6, DT, rest)
+    keep = [L, N]
+    more = [v for v in restV if v != N]
+    while 2 * len(keep) <= len(h.V):
+        keep.append(more.pop(0))
+    keepO = h.O[:1]
+    h.notes["down"] = [x for x in h.A if x not in keep and x not in keepO]
+    h.run(var.get("before_heal", 2), DT, rest)
+
+
 def d_observer_restart(h, var):
     """a READ-ONLY node loses everything (it has neither journal nor dump) and is started again: fully caught up
     and confirmed / lagging / in the middle of a multi-chunk snapshot transfer; the leader stays, or leadership
@@ -911,7 +949,7 @@ def d_random(h, var):
 GEN = {"partition": d_partition, "midburst": d_midburst, "stale_leader": d_stale_leader,
        "lag_snapshot": d_lag_snapshot, "uneven": d_uneven, "compactions": d_compactions,
        "term_inflation": d_term_inflation, "random": d_random, "old_long_vs_new_short": d_old_long_vs_new_short,
-       "observer_restart": d_observer_restart, "voter_restart_journal": d_voter_restart_journal,
+       "long_walkback": d_long_walkback, "observer_restart": d_observer_restart, "voter_restart_journal": d_voter_restart_journal,
        "voter_restart_leader_stays": d_voter_restart_leader_stays}
 
 
@@ -1168,6 +1206,19 @@ def scenario(repo, p, workdir=None):
             resets += 1
         elif t == "request_vote":
             votes += 1
+    # the longest uninterrupted series of rejections one connected node sent after the heal (read off the wire,
+    # COVERAGE only): one rejection per round trip = how long a leader heard nothing but "no" from that node
+    period = s.conf.get("appendEntriesPeriod", 0.125)
+    runs, best = {}, 0
+    for (a, b, m) in s.sent[n_sent0:]:
+        if a in h.C and m.get("type") == "next_node_idx":
+            if m.get("success"):
+                runs[a] = 0
+            elif m.get("reset"):
+                runs[a] = runs.get(a, 0) + 1
+                best = max(best, runs[a])
+    cov["walkback_rounds"] = best
+    cov["walkback_longer_than_fallback"] = bool(h.down) and best * period > s.conf.get("leaderFallbackTimeout", 30.0)
     # commands that entered a node's state after the heal without being executed there came by snapshot
     by_snapshot = [i for i in h.C if len(s.objs[i].log) - log0[i] > len(s.execs[i]) - execs0[i]]
     cov.update({"snapshot_chunks_after_heal": chunks, "snapshots_completed_after_heal": last_chunks,
@@ -1299,9 +1350,9 @@ def draw_conf(rng, kind=None):
         c["appendEntriesBatchSizeBytes"] = rng.choice([100, 200, 400])
     if kind == "old_long_vs_new_short":
         c["leaderFallbackTimeout"] = rng.choice([1.0, 2.0])          # stale leaders must step down while alone
-    if kind == "voter_restart_leader_stays":
+    if kind in ("voter_restart_leader_stays", "long_walkback"):
         c["logCompactionMinEntries"] = 100000                        # compaction only where the history says so
-        c["logCompactionMinTime"] = 100000
+        c["logCompactionMinTime"] = 100000                           # (no snapshot short-cuts the walk back)
     return c
 
 
@@ -1364,6 +1415,19 @@ def directed_params(rng):
                             "post_k": rng.randrange(4), "heal_all": True, "dumpfile": False,
                             "down": "notes", "down_mode": ["silent", "noticed"][(k // 2) % 2], "down_ticks": k % 3 != 0,
                             "down_fresh": True})
+    # walk back over a stale tail that takes longer than leaderFallbackTimeout, the walking follower being needed
+    k = 0
+    for T in (0.25, 0.5, 1.0):
+        for tail in (6, 20, 60):
+            k += 1
+            conf = draw_conf(rng, "long_walkback")
+            conf["leaderFallbackTimeout"] = T
+            out.append({"kind": "long_walkback", "nv": 5 if ((k - 1) // 3 + (k - 1) % 3) % 3 == 2 else 3, "no": [0, 1, 0, 2][k % 4], "conf": conf,
+                        "var": {"tail": tail, "mode": ["silent", "outside", "noticed"][k % 3], "more": rng.randrange(1, 6),
+                                "before_heal": rng.randrange(0, 6)},
+                        "seed": rng.randrange(10 ** 6), "post": ["leader", "follower"][k % 2], "early": ["lagging", "leader"][k % 2],
+                        "post_k": rng.randrange(4), "heal_all": True, "dumpfile": False,
+                        "down": "notes", "down_mode": ["noticed", "silent"][k % 2], "down_ticks": k % 3 != 1, "down_fresh": True})
     # restarts.  A stateless restart of a VOTER appears only in `voter_restart_leader_stays` (never in random histories,
     # never followed by another fault): with a later leader change the replicas could legitimately differ.
     k = 0
@@ -1408,12 +1472,12 @@ def random_params(rng, n):
     out = []
     kinds = ["random", "random", "random", "lag_snapshot", "stale_leader", "partition", "midburst", "uneven",
              "compactions", "term_inflation", "old_long_vs_new_short", "observer_restart", "voter_restart_journal",
-             "voter_restart_leader_stays"]
+             "voter_restart_leader_stays", "long_walkback"]
     modes = ["noticed", "silent", "inside", "outside"]
     for _ in range(n):
         kind = rng.choice(kinds)
         nv = rng.choice([2, 3, 3, 4, 5, 5])
-        if kind in ("old_long_vs_new_short", "voter_restart_journal", "voter_restart_leader_stays"):
+        if kind in ("old_long_vs_new_short", "voter_restart_journal", "voter_restart_leader_stays", "long_walkback"):
             nv = rng.choice([3, 4, 5])
         no = rng.choice([0, 0, 1, 1, 2])
         if kind == "observer_restart":
@@ -1451,6 +1515,9 @@ def random_params(rng, n):
             var = {"who": rng.choice(["follower", "leader"]), "rounds": rng.randrange(1, 4), "k": rng.choice([0, 1, 3, 6]),
                    "compact": rng.random() < 0.5, "compact_while_down": rng.random() < 0.4, "reconnect": rng.random() < 0.8,
                    "partition": rng.random() < 0.4, "away": rng.choice([2, 8, 30])}
+        elif kind == "long_walkback":
+            var = {"tail": rng.choice([3, 6, 10, 20, 40]), "mode": rng.choice(["silent", "outside", "noticed"]),
+                   "more": rng.randrange(1, 8), "before_heal": rng.randrange(0, 8)}
         elif kind == "voter_restart_leader_stays":
             var = {"variant": rng.choice(["empty", "dump_only"]), "k": rng.choice([0, 0, 1, 2, 3, 5]), "compact": rng.random() < 0.4,
                    "which": rng.randrange(4), "beyond": rng.randrange(1, 6), "after": rng.randrange(0, 4)}
@@ -1463,18 +1530,31 @@ def random_params(rng, n):
                    "rounds": rng.randrange(2, 10), "late_notice": rng.random() < 0.4}
         if kind == "old_long_vs_new_short":
             down = "notes" if rng.random() < 0.85 else "none"
+        elif kind == "long_walkback":
+            down = "notes"
         elif kind == "voter_restart_leader_stays":
             down = "none"                               # no fault at all after the restart
         else:
             down = rng.choice(["lagging", "stale", "other", "max"]) if (nv > 2 and rng.random() < 0.36) else "none"
         if down == "none" and no and rng.random() < 0.05:
             down = "obs"                                # only a read-only node stays away
+        short_T = None
+        if kind == "stale_leader" and nv > 2 and rng.random() < 0.35:
+            # the deposed leader's tail must be walked back while the node is needed for the majority
+            short_T = rng.choice([0.25, 0.25, 0.5, 1.0])
+            down = rng.choice(["other", "max"])
+            var["stale_cmds"], var["new_cmds"], var["compact"] = rng.randrange(3, 25), rng.randrange(3, 30), False
         journal = kind == "voter_restart_journal" or (kind == "random" and rng.random() < 0.2)
         if kind == "voter_restart_leader_stays":
             dumpfile, heal_all = var["variant"] == "dump_only", False
         else:
             dumpfile, heal_all = (not journal) and rng.random() < 0.15, rng.random() < 0.7
-        out.append({"kind": kind, "nv": nv, "no": no, "conf": draw_conf(rng, kind), "var": var,
+        conf = draw_conf(rng, kind)
+        if kind == "long_walkback":
+            conf["leaderFallbackTimeout"] = rng.choice([0.25, 0.25, 0.5, 1.0, 2.0])
+        if short_T is not None:
+            conf.update({"leaderFallbackTimeout": short_T, "logCompactionMinEntries": 100000, "logCompactionMinTime": 100000})
+        out.append({"kind": kind, "nv": nv, "no": no, "conf": conf, "var": var,
                     "seed": rng.randrange(10 ** 6), "post": rng.choice(["leader", "follower", "follower", "observer"]),
                     "early": rng.choice(["lagging", "lagging", "follower", "observer", "leader"]),
                     "post_k": rng.randrange(4), "heal_all": heal_all,
@@ -1503,7 +1583,17 @@ def corpus_params():
 
 def params(ctx):
     rng = ctx.rng("c05_convergence")
-    return corpus_params() + directed_params(rng) + random_params(rng, ctx.scale(300, 8000))
+    extra = []
+    if ctx.tier != "quick":
+        # the default leaderFallbackTimeout (30 s) against a stale tail of a few hundred entries: thorough tier only
+        for tail, mode in ((300, "silent"), (420, "outside")):
+            conf = draw_conf(rng, "long_walkback")
+            conf["leaderFallbackTimeout"] = 30.0
+            extra.append({"kind": "long_walkback", "nv": 3, "no": 0, "conf": conf, "var": {"tail": tail, "mode": mode, "more": 5,
+                                                                                            "before_heal": 2},
+                          "seed": rng.randrange(10 ** 6), "post": "leader", "early": "lagging", "post_k": 0, "heal_all": True,
+                          "dumpfile": False, "down": "notes", "down_mode": "noticed", "down_ticks": False, "quiet": 100})
+    return corpus_params() + directed_params(rng) + extra + random_params(rng, ctx.scale(300, 8000))
 
 
 # ------------------------------------------------------------------------------------------------
@@ -1599,7 +1689,7 @@ def run(ctx):
            "compactions": 0, "corpus_histories": 0, "planned": len(ps), "errors": 0,
            "violating_histories": {}, "early_command_outcome": {},
            "healed_with_minority_down": {"histories": 0, "by_kind": {}}, "connected_log_shapes_at_heal": {},
-           "old_long_vs_new_short": {}, "restarts": {}}
+           "old_long_vs_new_short": {}, "restarts": {}, "walkback_longer_than_fallback": {}, "max_walkback_rounds": 0}
     distinct = set()
     viols, sigs = [], set()
     errors = []
@@ -1634,6 +1724,10 @@ def run(ctx):
                     _inc(cov["old_long_vs_new_short"], k_)
                     if c["down_voters"]:
                         _inc(cov["old_long_vs_new_short"], k_ + "_bare_majority_%d" % c["nv"])
+        if c["walkback_longer_than_fallback"]:
+            _inc(cov["walkback_longer_than_fallback"], c["kind"])
+            _inc(cov["walkback_longer_than_fallback"], "T=%s" % (p.get("conf") or {}).get("leaderFallbackTimeout"))
+        cov["max_walkback_rounds"] = max(cov["max_walkback_rounds"], c["walkback_rounds"])
         for k_, n_ in c["restarts"].items():
             if n_:
                 _inc(cov["restarts"], k_, n_)
@@ -1738,6 +1832,9 @@ def run(ctx):
                        ("leader_stays_dump_only_match_beyond_log_end", 5, 80)):
         if rs.get(k_, 0) < ctx.scale(q_, t_):
             floors.append("restarts: %s = %d" % (k_, rs.get(k_, 0)))
+    if cov["walkback_longer_than_fallback"].get("long_walkback", 0) < ctx.scale(5, 6):
+        floors.append("long_walkback histories whose walk back outlasted leaderFallbackTimeout: %d"
+                      % cov["walkback_longer_than_fallback"].get("long_walkback", 0))
     ol = cov["old_long_vs_new_short"]
     for k_ in ("longer_older_vs_shorter_newer_bare_majority_3", "longer_older_vs_shorter_newer_bare_majority_5",
                "shorter_older_vs_longer_newer_bare_majority_3", "shorter_older_vs_longer_newer_bare_majority_5"):
